@@ -44,6 +44,10 @@ Definition swap_site_names : list string := [
   "Channel._read_until_prompt_or_time"; "AsyncChannel._read_until_prompt_or_time";
   "GenericDriver.read_callback"; "AsyncGenericDriver.read_callback" ].
 
+(* the only function of scrapli/decorators.py that starts a thread: the thread based timeout of the sync
+   stack (TimeoutRestore.pool_call) *)
+Definition thread_sites : list string := [ "_multiprocessing_timeout" ].
+
 (* [fin = true] of the model: at least one assignment sets the value, every such assignment is covered
    by a try whose finally restores it *)
 Definition site_ok (x : string * (nat * nat * nat * nat)) : bool :=
